@@ -13,6 +13,7 @@ from fractions import Fraction
 import numpy as onp
 
 KS = (-8, -2, -1, 1, 2, 8)
+KIND_SWITCH, KIND_TIE, KIND_ANTI, KIND_ZERO = 0, 1, 2, 3
 DECADES = [10.0 ** k for k in range(-10, 1)]
 
 
@@ -49,26 +50,37 @@ def magnitudes_relative(rng, n, e, cap=1e6):
     return y * rng.choice([-1.0, 1.0], n)
 
 
-def _expand(center_cols, perturb):
+def _expand(center_cols, perturb, zero_ref=None, kind=0, id0=0):
     """center_cols: dict name -> (m,) arrays; perturb: names to move by ulps. Returns dict of arrays with the centre
-    followed by its members, cluster ids and centre flags."""
+    followed by its members, cluster ids (starting at id0), centre flags and the cluster kind.
+    Where the centre value of the moved argument is exactly 0, an ulp step is a subnormal (flushed by XLA): the member
+    is moved by k*eps_machine*center_cols[zero_ref] instead ("+-tiny")."""
     names = list(center_cols.keys())
     m = len(center_cols[names[0]])
     cols = {k: [center_cols[k]] for k in names}
-    cid = [onp.arange(m)]
+    cid = [onp.arange(m) + id0]
     cen = [onp.ones(m, bool)]
-    moved = [onp.full(m, -1)]
-    for j, p in enumerate(perturb):
+    for p in perturb:
         for k in KS:
             for nme in names:
-                cols[nme].append(ulp_shift(center_cols[nme], k) if nme == p else center_cols[nme])
-            cid.append(onp.arange(m))
+                if nme == p:
+                    sh = ulp_shift(center_cols[nme], k)
+                    if zero_ref is not None:
+                        sh = onp.where(center_cols[nme] == 0.0, k * 2.0 ** -52 * center_cols[zero_ref], sh)
+                    cols[nme].append(sh)
+                else:
+                    cols[nme].append(center_cols[nme])
+            cid.append(onp.arange(m) + id0)
             cen.append(onp.zeros(m, bool))
-            moved.append(onp.full(m, j))
     out = {k: onp.concatenate(v) for k, v in cols.items()}
     out["cluster"] = onp.concatenate(cid)
     out["center"] = onp.concatenate(cen)
+    out["kind"] = onp.full(len(out["cluster"]), kind, dtype=int)
     return out
+
+
+def _cat(parts):
+    return {k: onp.concatenate([p[k] for p in parts]) for k in parts[0]}
 
 
 def _with_free(clustered, free):
@@ -78,6 +90,7 @@ def _with_free(clustered, free):
         out[k] = onp.concatenate([clustered[k], free[k]])
     out["cluster"] = onp.concatenate([clustered["cluster"], -onp.ones(n_free, int)])
     out["center"] = onp.concatenate([clustered["center"], onp.zeros(n_free, bool)])
+    out["kind"] = onp.concatenate([clustered.get("kind", onp.zeros(len(clustered["cluster"]), int)), -onp.ones(n_free, int)])
     return out
 
 
@@ -94,7 +107,26 @@ def gen_minmax(rng, nclus, nfree):
     side = rng.choice([-1.0, 1.0], nclus)
     x = y + side * e
     e0 = onp.abs(x - y)          # the width is *defined* by the pair so that the centre sits on the switch
-    cl = _expand({"x": x, "y": y, "e": e0}, ["x", "y", "e"])
+    cl = _expand({"x": x, "y": y, "e": e0}, ["x", "y", "e"], kind=KIND_SWITCH)
+    # interior points where a non-smooth primitive (minimum / abs / sign / where-on-equality) would show:
+    #   tie   x == y bit for bit (any magnitude, incl. 0 and |x| >> eps)
+    #   anti  x == -y (equal magnitudes, opposite sign), inside and outside the band
+    #   zero  one argument exactly 0
+    nt = max(8, nclus // 2)
+    et = widths(rng, nt)
+    yt = magnitudes_relative(rng, nt, et)
+    tie = _expand({"x": yt.copy(), "y": yt, "e": et}, ["x", "y", "e"], zero_ref="e", kind=KIND_TIE, id0=nclus)
+    na = max(8, nclus // 4)
+    ea = widths(rng, na)
+    xa = ea * onp.where(rng.random(na) < 0.7, rng.uniform(0.0, 0.5, na), 10.0 ** rng.uniform(-6, 2, na)) * rng.choice([-1.0, 1.0], na)
+    anti = _expand({"x": xa, "y": -xa, "e": ea}, ["x", "y"], zero_ref="e", kind=KIND_ANTI, id0=nclus + nt)
+    nz = max(8, nclus // 4)
+    ez = widths(rng, nz)
+    oz = ez * onp.where(rng.random(nz) < 0.7, rng.uniform(-1.0, 1.0, nz), rng.standard_normal(nz) * 10.0 ** rng.uniform(-6, 2, nz))
+    first = rng.random(nz) < 0.5
+    zero = _expand({"x": onp.where(first, 0.0, oz), "y": onp.where(first, oz, 0.0), "e": ez}, ["x", "y"], zero_ref="e",
+                   kind=KIND_ZERO, id0=nclus + nt + na)
+    cl = _cat([cl, tie, anti, zero])
     ef = widths(rng, nfree)
     yf = magnitudes_relative(rng, nfree, ef)
     u = rng.random(nfree)
@@ -120,7 +152,11 @@ def gen_one_sided(rng, nclus, nfree, switch_fracs):
     e = widths(rng, nclus)
     f = rng.choice(onp.array(switch_fracs, dtype=float), nclus)
     x = f * e                       # exact for f in {+-1/2, +-1}
-    cl = _expand({"x": x, "e": e}, ["x", "e"])
+    cl = _expand({"x": x, "e": e}, ["x", "e"], kind=KIND_SWITCH)
+    nz = max(8, nclus // 3)
+    ez = widths(rng, nz)
+    zc = _expand({"x": onp.zeros(nz), "e": ez}, ["x", "e"], zero_ref="e", kind=KIND_ZERO, id0=nclus)   # x = 0 exactly, +-tiny
+    cl = _cat([cl, zc])
     ef = widths(rng, nfree)
     u = rng.random(nfree)
     sg = rng.choice([-1.0, 1.0], nfree)
@@ -141,7 +177,11 @@ def gen_smooth_linear(rng, nclus, nfree):
     l = onp.minimum(widths(rng, nclus, -10.0, math.log10(0.5), special=(0.5, 0.25, 0.1, 1e-7, 1e-9)), 0.5)
     right = rng.random(nclus) < 0.5
     xi = onp.where(right, 1.0 - l, l)
-    cl = _expand({"xi": xi, "l": l}, ["xi", "l"])
+    cl = _expand({"xi": xi, "l": l}, ["xi", "l"], kind=KIND_SWITCH)
+    nz = max(8, nclus // 3)
+    lz = onp.minimum(widths(rng, nz, -10.0, math.log10(0.5), special=(0.5, 0.25, 0.1, 1e-7, 1e-9)), 0.5)
+    ends = _expand({"xi": rng.choice([0.0, 1.0], nz), "l": lz}, ["xi", "l"], zero_ref="l", kind=KIND_ZERO, id0=nclus)
+    cl = _cat([cl, ends])
     lf = onp.minimum(widths(rng, nfree, -10.0, math.log10(0.5), special=(0.5, 0.25, 0.1, 1e-7, 1e-9)), 0.5)
     u = rng.random(nfree)
     t = 10.0 ** rng.uniform(-16, -1, nfree) * rng.choice([-1.0, 1.0], nfree)
@@ -184,6 +224,17 @@ def gen_friction(rng, nclus, nfree, dim):
         S2[onp.arange(nclus), big] = ulp_shift(S[onp.arange(nclus), big], k)
         Ss.append(S2); Rs.append(sreg); Ms.append(mu); cid.append(onp.arange(nclus)); cen.append(onp.zeros(nclus, bool))
         Ss.append(S); Rs.append(ulp_shift(sreg, k)); Ms.append(mu); cid.append(onp.arange(nclus)); cen.append(onp.zeros(nclus, bool))
+    kinds = [onp.full(nclus, KIND_SWITCH)] * len(Ss)
+    # s = 0 exactly (gradient of a norm-based potential is where a plain sqrt / abs would show) and +-tiny neighbours
+    nz = max(8, nclus // 3)
+    rz = widths(rng, nz, special=(1e-4,))
+    mz = 10.0 ** rng.uniform(-2, 0.5, nz)
+    Dz = rng.standard_normal((nz, dim)); Dz /= onp.linalg.norm(Dz, axis=1)[:, None]
+    Ss.append(onp.zeros((nz, dim))); Rs.append(rz); Ms.append(mz); cid.append(onp.arange(nz) + nclus); cen.append(onp.ones(nz, bool))
+    kinds.append(onp.full(nz, KIND_ZERO))
+    for k in KS:
+        Ss.append(Dz * (k * 2.0 ** -52 * rz)[:, None]); Rs.append(rz); Ms.append(mz); cid.append(onp.arange(nz) + nclus)
+        cen.append(onp.zeros(nz, bool)); kinds.append(onp.full(nz, KIND_ZERO))
     # free points
     rf = widths(rng, nfree, special=(1e-4,))
     mf = 10.0 ** rng.uniform(-2, 0.5, nfree)
@@ -201,7 +252,8 @@ def gen_friction(rng, nclus, nfree, dim):
     mag = onp.minimum(rad * rf, 1e6)
     Sf = V * mag[:, None]
     out = {"s": onp.concatenate(Ss + [Sf]), "sreg": onp.concatenate(Rs + [rf]), "mu": onp.concatenate(Ms + [mf]),
-           "cluster": onp.concatenate(cid + [-onp.ones(nfree, int)]), "center": onp.concatenate(cen + [onp.zeros(nfree, bool)])}
+           "cluster": onp.concatenate(cid + [-onp.ones(nfree, int)]), "center": onp.concatenate(cen + [onp.zeros(nfree, bool)]),
+           "kind": onp.concatenate(kinds + [-onp.ones(nfree, int)])}
     return out
 
 
